@@ -10,9 +10,10 @@ def gen(ck, params, cfgs):
             words = "%s %s %s" % (nc.flat(a), nc.flat(b), nc.flat(c))
             for si, (name, cpp, tree, ok) in enumerate(ec.SHAPES):
                 tt = tree.split()
-                for kind in ("poly", "polyp"):
+                for kind in ("poly", "polyp", "polyps"):
                     for dst in (0, 1, 2, 3):
-                        if q and vi > 0 and dst in (0, 3) and kind == "polyp": continue
+                        if q and vi > 0 and dst in (0, 3) and kind != "poly": continue
+                        if kind == "polyps" and vi > 1: continue
                         cases.append(("assign:%s dst=%s %s [%s]" % (name, "dabc"[dst], kind, vtag), cfg, name,
                                       "assign %d %d %d %s %d %d %s" % (w, n, nm, kind, si, dst, words),
                                       "assign %d %d %d %d T %d %s %s" % (w, n, nm, dst, len(tt), tree, words)))
